@@ -316,24 +316,33 @@ class Run:
 
     # ---- stages
     def prepare(self, lake_targets=("dsmodel",)):
+        """builds everything; returns True when the streams/oracles can run (harness + model driver built).
+        A failing property module is recorded as a broken obligation but does not stop the search."""
+        self.module_ok = False
         try:
             build_harness()
             run_translator()
         except Broken as b:
             self.broken.append((b.what, b.detail))
             return False
-        targets = list(lake_targets)
-        if self.module:
-            targets.append(self.module)
-        ok, log = lake_build(targets)
+        ok, log = lake_build(list(lake_targets))
         if not ok:
-            self.broken.append(("lake-build:" + ",".join(targets), "\n".join(log.split("\n")[-60:])))
+            self.broken.append(("lake-build:" + ",".join(lake_targets), "\n".join(log.split("\n")[-60:])))
             return False
+        if self.module:
+            ok2, log2 = lake_build([self.module])
+            if not ok2:
+                self.broken.append(("lake-build:" + self.module, "\n".join(log2.split("\n")[-60:])))
+            else:
+                self.module_ok = True
         return True
 
     def proofs(self):
         """audit theorems of the property module"""
         if not self.module:
+            return
+        if not getattr(self, "module_ok", False):
+            self.obligations = theorems_in(self.props_file)
             return
         files = [self.props_file] + self.extra_files
         hits = forbidden_tokens([f for f in files if f])
